@@ -20,6 +20,7 @@ import (
 	"fmt"
 	"net"
 	"os"
+	"regexp"
 	"runtime"
 	"sort"
 	"strconv"
@@ -144,7 +145,7 @@ type Line struct {
 	Ended   bool       `json:"ended"`  // Client.Wait() returned
 	Werr    string     `json:"werr"`   // class of its error
 	Closed  bool       `json:"closed"` // client closed its connection
-	Gor     int        `json:"gor"`    // goroutines beyond baseline and harness-owned ones
+	Gor     int        `json:"gor"`    // client goroutines: exact (bubble dump) on PreEnd/End lines, NumGoroutine delta elsewhere
 	Napi    int        `json:"napi"`   // API calls still blocked
 	Leaked  int        `json:"leaked"` // End line only
 	Skipped bool       `json:"skipped"`
@@ -159,6 +160,43 @@ func (l quietLogger) WithTag(string) util.Logger { return l }
 func (quietLogger) Sync()                        {}
 
 func levels(s string) []string { return strings.Split(s, "/") }
+
+var bubbleRe = regexp.MustCompile(`synctest bubble (\d+)`)
+
+// clientGoroutines counts the goroutines of the calling goroutine's synctest
+// bubble that belong to the code under test: everything started inside the
+// bubble except the harness' own goroutines (frames of this package or of
+// the synctest machinery).  Exact, unlike a runtime.NumGoroutine delta.
+func clientGoroutines() int {
+	buf := make([]byte, 4<<20)
+	all := string(buf[:runtime.Stack(buf, true)])
+	gs := strings.Split(all, "\n\n")
+	hdr := gs[0]
+	if i := strings.IndexByte(hdr, '\n'); i >= 0 {
+		hdr = hdr[:i]
+	}
+	m := bubbleRe.FindStringSubmatch(hdr)
+	if m == nil {
+		return -1
+	}
+	n := 0
+	for _, g := range gs[1:] {
+		h := g
+		if i := strings.IndexByte(h, '\n'); i >= 0 {
+			h = h[:i]
+		}
+		m2 := bubbleRe.FindStringSubmatch(h)
+		if m2 == nil || m2[1] != m[1] {
+			continue
+		}
+		if strings.Contains(g, "verif/harness/cldrv.") || strings.Contains(g, "testing/synctest.") ||
+			strings.Contains(g, "internal/synctest.") {
+			continue
+		}
+		n++
+	}
+	return n
+}
 
 func pkFromWire(d []byte) Pk {
 	s := absmap.SnFromWire(d, 8192)
@@ -554,6 +592,7 @@ func runScenario(sc Scenario, emit func(Line), progress func(int), park func()) 
 	}
 	// Epilogue: close the client (if the schedule did not) and look for leaks.
 	pre := snapshot(TraceEv{T: "PreEnd"})
+	pre.Gor = clientGoroutines()
 	emit2(pre)
 	closeDone := make(chan struct{})
 	go func() {
@@ -572,7 +611,12 @@ func runScenario(sc Scenario, emit func(Line), progress func(int), park func()) 
 	default:
 	}
 	l := snapshot(TraceEv{T: "End"})
+	l.Gor = clientGoroutines()
 	l.Leaked = l.Gor
+	if l.Leaked > 0 && os.Getenv("VERIF_DEBUG") != "" {
+		buf := make([]byte, 1<<20)
+		os.WriteFile(os.Getenv("VERIF_DEBUG")+"-"+sc.ID+".txt", buf[:runtime.Stack(buf, true)], 0o644)
+	}
 	if !closed {
 		l.Leaked += 1000
 	}
